@@ -39,7 +39,7 @@ def gen_script(rng):
                 pending.remove((u, at))
         for _ in range(rng.choice([0, 1, 1, 2, 3])):
             api = rng.choice(["threading", "_thread", "_thread_ct"])
-            name = rng.choice(["worker-%d", "ign-%d", "w%d"]) % uid
+            name = rng.choice(["worker-%d", "ign-%d", "w%d", "ab=ab-%d", "IGN-%d"]) % uid
             actions.append(["start", uid, api, name])
             fate = rng.choice(["finish", "finish", "leak-later", "leak-end"])
             if fate == "finish":
@@ -48,7 +48,9 @@ def gen_script(rng):
                 pending.append((uid, rng.randint(t + 1, ntests - 1)))
             uid += 1
         tests.append({"id": t, "actions": actions})
-    return {"tests": tests}
+    # --ignore-new-thread may be given several times: each pattern stands alone (match mode)
+    ignore = rng.choice([["ign"], ["ign"], ["(?i)ign", "W\\d"], ["(w)orker-9", "(\\w+)=\\1"], ["ign", "w\\d+$"], ["IGN", "ign"]])
+    return {"tests": tests, "ignore": ignore}
 
 
 def run_real(ctx, script, idx):
@@ -60,7 +62,10 @@ def run_real(ctx, script, idx):
     trace = os.path.join(d, "trace.jsonl")
     env = dict(os.environ)
     env["ZTR_TRACE"] = trace
-    p = subprocess.run([common.PY, os.path.join(d, "ztr_run.py"), "--path", d, "-v", "--ignore-new-thread", "ign"],
+    ign_args = []
+    for pat in script.get("ignore", ["ign"]):
+        ign_args += ["--ignore-new-thread", pat]
+    p = subprocess.run([common.PY, os.path.join(d, "ztr_run.py"), "--path", d, "-v"] + ign_args,
                        cwd=d, env=env, stdout=subprocess.PIPE, stderr=subprocess.PIPE, timeout=120)
     events = [json.loads(l) for l in open(trace)] if os.path.exists(trace) else []
     events.sort(key=lambda e: e["seq"])
@@ -96,7 +101,8 @@ def run(ctx):
         for e in events:
             if e["ev"] == "start":
                 ident_of[e["uid"]] = e["ident"]
-                hist.append(["start", e["uid"], e["ident"], names[e["uid"]].startswith("ign")])
+                ignored = any(re.match(pat, names[e["uid"]]) for pat in script.get("ignore", ["ign"]))
+                hist.append(["start", e["uid"], e["ident"], bool(ignored)])
             elif e["ev"] == "finish":
                 hist.append(["finish", e["uid"]])
             elif e["ev"] == "tstart":
